@@ -41,29 +41,63 @@ theorem fw_rate_limit (a : Anim) (g : Grid) (cols now : Nat) :
     ((Fw.tick a g cols now).2.2 = true → (Fw.tick a g cols now).1.lastStep = now ∧ a.active = true) ∧
     ((Fw.tick a g cols now).2.2 = false → (Fw.tick a g cols now).1 = a ∧ (Fw.tick a g cols now).2.1.grid = g) ∧
     (0 < a.speed → 0 < a.lastStep → now - a.lastStep < a.speed → (Fw.tick a g cols now).2.2 = false) := by
-  sorry
+  have hf := Lemmas.C18.fw_step_fields { a with lastStep := now } g cols
+  rcases Lemmas.C18.fw_tick_cases a g cols now with ⟨ha, hd, h⟩ | ⟨hn, h⟩
+  · rw [h]
+    refine ⟨fun _ => ⟨hf.1, ha⟩, (by simp), ?_⟩
+    intro h1 h2 h3
+    simp [Anim.due, h1, h2, h3] at hd
+  · rw [h]
+    refine ⟨(by simp), fun _ => ⟨rfl, rfl⟩, fun _ _ _ => rfl⟩
 
 /-- consecutive steps at clock values `t` then `t'` (with `0 < t ≤ t'`) are at least `speed` apart -/
 theorem fw_steps_spaced (a : Anim) (g g' : Grid) (cols t t' : Nat) (ht : 0 < t) (htt : t ≤ t')
     (h1 : (Fw.tick a g cols t).2.2 = true) (h2 : (Fw.tick (Fw.tick a g cols t).1 g' cols t').2.2 = true) :
     a.speed ≤ t' - t := by
-  sorry
+  have hf := Lemmas.C18.fw_step_fields { a with lastStep := t } g cols
+  have r1 := (fw_rate_limit a g cols t).1 h1
+  have hsp : (Fw.tick a g cols t).1.speed = a.speed := by
+    rcases Lemmas.C18.fw_tick_cases a g cols t with ⟨_, _, h⟩ | ⟨_, h⟩
+    · rw [h]; exact hf.2.1
+    · rw [h]
+  have r3 := (fw_rate_limit (Fw.tick a g cols t).1 g' cols t').2.2
+  rw [r1.1, hsp] at r3
+  by_cases h0 : 0 < a.speed
+  · by_cases hlt : t' - t < a.speed
+    · have := r3 h0 ht hlt
+      rw [h2] at this
+      cases this
+    · omega
+  · omega
 
 theorem host_rate_limit (a : Anim) (g : Grid) (cols now : Nat) :
     ((Host.tick a g cols now).2.2 = true → (Host.tick a g cols now).1.lastStep = now ∧ a.active = true) ∧
     ((Host.tick a g cols now).2.2 = false → (Host.tick a g cols now).1 = a ∧ (Host.tick a g cols now).2.1 = g) ∧
     (0 < a.speed → 0 < a.lastStep → now - a.lastStep < a.speed → (Host.tick a g cols now).2.2 = false) := by
-  sorry
+  have hf := Lemmas.C18.host_step_fields { a with lastStep := now } g cols
+  rcases Lemmas.C18.host_tick_cases a g cols now with ⟨ha, hd, h⟩ | ⟨hn, h⟩
+  · rw [h]
+    refine ⟨fun _ => ⟨hf.1, ha⟩, (by simp), ?_⟩
+    intro h1 h2 h3
+    simp [Anim.due, h1, h2, h3] at hd
+  · rw [h]
+    refine ⟨(by simp), fun _ => ⟨rfl, rfl⟩, fun _ _ _ => rfl⟩
 
 /-! ### looping animations never end; non-looping ones end after a linearly bounded number of steps -/
 
 theorem fw_loop_forever (a : Anim) (g : Grid) (cols : Nat) (hl : a.loop = true) (ha : a.active = true) :
     (Fw.step a g cols).1.active = true ∧ (Fw.step a g cols).1.loop = true := by
-  sorry
+  refine ⟨?_, by rw [(Lemmas.C18.fw_step_fields a g cols).2.2.1, hl]⟩
+  unfold Fw.step
+  cases hst : a.style <;> simp only [] <;> repeat' split
+  all_goals simp_all
 
 theorem host_loop_forever (a : Anim) (g : Grid) (cols : Nat) (hl : a.loop = true) (ha : a.active = true) :
     (Host.step a g cols).1.active = true ∧ (Host.step a g cols).1.loop = true := by
-  sorry
+  refine ⟨?_, by rw [(Lemmas.C18.host_step_fields a g cols).2.2.1, hl]⟩
+  unfold Host.step
+  cases hst : a.style <;> simp only [] <;> repeat' split
+  all_goals simp_all
 
 /-- `n` forced steps (ticks that pass the rate limiter), stopping as soon as the animation is inactive -/
 def fwSteps (cols : Nat) : Nat → Anim × Grid → Anim × Grid
@@ -100,15 +134,15 @@ theorem host_terminates (style : Style) (g : Grid) (cols row speed : Nat) (text 
 /-- the bound is linear: at most `2·(len + cols) + 1` -/
 theorem bound_linear (style : Style) (len cols : Nat) :
     fwBound style len cols ≤ 2 * (len + cols) + 1 ∧ hostBound style len cols ≤ 2 * (len + cols) + 1 := by
-  sorry
+  cases style <;> simp only [fwBound, hostBound] <;> (try split) <;> omega
 
 /-- an inactive animation is never touched again -/
 theorem inactive_stays (a : Anim) (g : Grid) (cols now : Nat) (h : a.active = false) :
     Fw.tick a g cols now = (a, { grid := g }, false) ∧ Host.tick a g cols now = (a, g, false) := by
-  sorry
+  simp [Fw.tick, Host.tick, h]
 
 example : (fwSteps 8 (fwBound .bounce 3 8) ((Fw.start .bounce (blank 8 2) 8 0 ['a', 'b', 'c'] 0 false).1,
     (Fw.start .bounce (blank 8 2) 8 0 ['a', 'b', 'c'] 0 false).2.grid)).1.active = false := by
-  sorry
+  decide
 
 end Reduino.Props.C18
